@@ -79,6 +79,10 @@ macro_rules! int_fns {
             pub fn m_v_small(x: &$t) -> Result<(), i64> {
                 v_small(x).map_err(|e| e.code)
             }
+            /// `v_small` as a predicate (C02: custom rule mixed with standard ones)
+            pub fn p_v_small(x: &$t) -> bool {
+                v_small(x).is_ok()
+            }
         }
     };
 }
@@ -151,6 +155,9 @@ macro_rules! float_fns {
             pub fn m_v_small(x: &$t) -> Result<(), i64> {
                 v_small(x).map_err(|e| e.code)
             }
+            pub fn p_v_small(x: &$t) -> bool {
+                v_small(x).is_ok()
+            }
         }
     };
 }
@@ -209,6 +216,9 @@ pub mod fstr {
     pub fn m_p_no_a(s: &String) -> bool {
         p_no_a(s)
     }
+    pub fn m_p_v_nobang(s: &String) -> bool {
+        v_nobang(s).is_ok()
+    }
 }
 
 pub mod fvec {
@@ -250,6 +260,9 @@ pub mod fvec {
     }
     pub fn m_v_sum(v: &Vec<i32>) -> Result<(), i64> {
         v_sum(v).map_err(|e| e.code)
+    }
+    pub fn p_v_sum(v: &Vec<i32>) -> bool {
+        v_sum(v).is_ok()
     }
     // generic twins, used by `struct W<T: Ord + Clone>(Vec<T>)`
     pub fn g_s_sort<T: Ord>(mut v: Vec<T>) -> Vec<T> {
